@@ -47,7 +47,7 @@ var re2Letters = []rune("abcxyAB01 _-\nksKS.@\t")
 
 func (s *st) lit() rune {
 	if rapid.IntRange(0, 7).Draw(s.t, "wide") == 0 {
-		return rapid.SampledFrom([]rune{'é', 'λ', '日', 0x1F600, 'Ж', 0x212A, 0x017F}).Draw(s.t, "widelit")
+		return rapid.SampledFrom([]rune{'é', 'λ', '日', 0x1F600, 'Ж', 0x212A, 0x017F, 0x0130}).Draw(s.t, "widelit")
 	}
 	return rapid.SampledFrom(re2Letters).Draw(s.t, "lit")
 }
@@ -511,7 +511,7 @@ func check(c Case) error {
 		if err != nil {
 			diff = err.Error()
 		}
-		if diff != "" && known.RE2IgnoreCaseNotWord("c06-re2-ignorecase-notword", c.AST, true, string(in)) {
+		if diff != "" && known.IgnoreCaseU0130("c06-ignorecase-u0130", c.AST, string(in)) {
 			continue
 		}
 		if diff != "" && hasBoundary && known.NonboundaryAtomic("c06-auto-atomic-nonboundary", func() bool {
